@@ -97,14 +97,12 @@ class Scope:
         return self.defs.get(name, [])
 
 
-_SCOPES: Dict[str, Scope] = {}
-
-
 def scope_of(fn: Func) -> Scope:
-    key = f"{id(fn.node)}"
-    if key not in _SCOPES:
-        _SCOPES[key] = Scope(fn)
-    return _SCOPES[key]
+    sc = getattr(fn.node, "_sv_scope", None)
+    if sc is None:
+        sc = Scope(fn)
+        fn.node._sv_scope = sc  # cached on the AST node itself (ids may be recycled)
+    return sc
 
 
 def comp_defs(name_node: ast.Name) -> Optional[Def]:
